@@ -3,6 +3,7 @@
 import os, shutil, sys, json
 HERE = os.path.dirname(os.path.dirname(os.path.abspath(__file__)))
 src = sys.argv[1] if len(sys.argv) > 1 else "/tmp/wt3"
+tag = (sys.argv[2] + "-") if len(sys.argv) > 2 else ""
 for prop in sorted(os.listdir(src)):
     d = os.path.join(src, prop)
     if not os.path.isdir(d):
@@ -11,7 +12,7 @@ for prop in sorted(os.listdir(src)):
         p = os.path.join(d, "refactor%d.patch" % n)
         if not os.path.exists(p):
             continue
-        out = os.path.join(HERE, "refactors", "%s-refactor%d" % (prop, n))
+        out = os.path.join(HERE, "refactors", "%s-%srefactor%d" % (prop, tag, n))
         os.makedirs(out, exist_ok=True)
         shutil.copy(p, os.path.join(out, "patch.diff"))
         e = os.path.join(d, "equiv%d.py" % n)
